@@ -22,8 +22,9 @@ RULE = ("a scenario is a history of 16-30 rendering requests over 4-6 long-lived
         "Requests vary the colours configuration (3-5 random override sets of NAME / NUMBER / KEYWORD / TABLE.* / "
         "RECORD.* / GHIST.* / HDOC.* / ENUM names incl. 256-colour, cube, gray and '-' forms; a new short-lived "
         "ColorsConfig object per request or a long-lived one), no_color, the way colours are supplied (colors_conf, "
-        "swapped global configuration, palette class, palette object) and the way the result is consumed (whole, "
-        "line by line, lines joined, whole and then line by line on the same result, twice line by line). Configurations are dropped and gc.collect() runs between requests so that "
+        "swapped global configuration, palette class, palette object, a table palette subclass with a re-mapped enum sub-palette) and the way the result is consumed (whole, "
+        "line by line, lines joined, whole and then line by line on the same result, twice line by line, line by line with "
+        "another rendering of the same object produced in between). Configurations are dropped and gc.collect() runs between requests so that "
         "palette addresses are reused. Oracle: (a) SGR-stripped coloured output == no_color output of the same "
         "object and configuration, no ESC in no_color output; (b) byte-identical with a REFERENCE rendering made "
         "in a fresh interpreter with brand-new objects per request, all kept alive, in reverse order; (c) line "
@@ -98,8 +99,8 @@ def gen_scenario(rng):
             # the enum field type shared by tables and the record formatter is the long-lived cache
             o = rng.choice([i for i, x in enumerate(objects) if x['kind'] in ('table', 'rec')])
         c = rng.randrange(len(confs))
-        via = rng.choice(['explicit', 'explicit', 'global', 'palette_class', 'palette_obj'])
-        mode = rng.choice(['whole', 'whole', 'lines', 'lines_join', 'whole_then_lines', 'lines_twice'])
+        via = rng.choice(['explicit', 'explicit', 'global', 'palette_class', 'palette_obj', 'custom_palette'])
+        mode = rng.choice(['whole', 'whole', 'lines', 'lines_join', 'whole_then_lines', 'lines_twice', 'interleaved'])
         if objects[o]['kind'] in ('rec', 'hdoc'):
             mode = 'whole'   # a formatted record is a plain CHText, help text is printed: no line iteration
         long_lived = rng.random() < 0.3
@@ -205,7 +206,8 @@ def run_scenario(ctx, scenario, case, workdir):
         except sgr.SgrError as err:
             problems.append(("malformed-escape-sequence-in-rendering", dict(where, err=str(err))))
             continue
-        same = by_req.setdefault((req['obj'], req['conf'], req['no_color']), (out, req['mode'], idx))
+        same = by_req.setdefault((req['obj'], req['conf'], req['no_color'], req['via'] == 'custom_palette'),
+                                 (out, req['mode'], idx))
         if same[0] != out:
             problems.append(("line-iteration-differs-from-whole-text",
                              dict(where, other_request=same[2], other_mode=same[1])))
